@@ -3,6 +3,7 @@ package input
 import (
 	"github.com/berquerant/crd/note"
 	"github.com/berquerant/crd/op"
+	"gopkg.in/yaml.v3"
 )
 
 type Instance struct {
@@ -20,6 +21,35 @@ type Chord struct {
 	Degree note.Degree  `yaml:"degree"`
 	Chord  string       `yaml:"name"`
 	Base   *note.Degree `yaml:"base,omitempty"`
+}
+
+// MarshalYAML prints the chord symbol like a metadata text, so that it reads
+// back as the same string: a symbol of a user dictionary may contain line
+// breaks, which yaml.v3 would write as a block scalar that loses a leading
+// line break and cannot be read back with a leading tab.
+func (c Chord) MarshalYAML() (any, error) {
+	n := &yaml.Node{Kind: yaml.MappingNode}
+	add := func(key string, v *yaml.Node) {
+		n.Content = append(n.Content, &yaml.Node{Kind: yaml.ScalarNode, Tag: "!!str", Value: key}, v)
+	}
+	var degree yaml.Node
+	if err := degree.Encode(c.Degree); err != nil {
+		return nil, err
+	}
+	add("degree", &degree)
+	name, err := op.TextScalar(c.Chord)
+	if err != nil {
+		return nil, err
+	}
+	add("name", name)
+	if c.Base != nil {
+		var base yaml.Node
+		if err := base.Encode(*c.Base); err != nil {
+			return nil, err
+		}
+		add("base", &base)
+	}
+	return n, nil
 }
 
 const (
